@@ -5,7 +5,7 @@
    filter_namespace_doc, markupsafe escape, select_autoescape configuration, template names, explicit escape
    filters at documentation sinks -- regenerated from /repo on every run). *)
 From Coq Require Import String.
-From Verif Require Import HtmlModel HtmlThm HtmlThmTree HtmlThmLinks HtmlThmLinksAll HtmlThmOk HtmlThmIds HtmlSkel HtmlThmSkel.
+From Verif Require Import HtmlModel HtmlThm HtmlThmTree HtmlThmLinks HtmlThmLinksAll HtmlThmOk HtmlThmIds HtmlThmNoDup HtmlSkel HtmlThmSkel.
 Open Scope N_scope.
 
 (* (1) escape_no_markup: for EVERY string, the result of either escape function in use (html.escape inside make_unique,
@@ -191,6 +191,20 @@ Proof.
   - split; [exact (proj1 static_ids_ok)|exact (proj1 (proj2 static_ids_ok))].
 Qed.
 Print Assumptions C20_id_kinds.
+
+(* (e) THREADED COUNTER INVARIANT of the UniqueNameGenerator: decimal printing is injective, and for ANY start state and ANY
+   sequence of tokens the ids make_unique hands out for `token ++ "-n"` (what type_info.j2 passes for every nesting occurrence,
+   in call order) are pairwise distinct -- and distinct from every id handed out before (call_seq_inv).
+   NOT proved: NoDup of the complete id list of a page (that the emitter's nesting occurrences ARE such a sequence interleaved
+   with the type / namespace / sidebar ids, each emitted once): class disjointness (d), per-class injectivity (a, ns) and this
+   invariant are the ingredients; the multiplicity part stays with the oracle rule `dupid`. *)
+Theorem C20_make_unique_sequence_nodup : forall st toks, NoDup (snd (mu_seq st toks)).
+Proof. intros st toks. exact (make_unique_sequence_nodup st toks (proj2 id_scheme_now)). Qed.
+Print Assumptions C20_make_unique_sequence_nodup.
+
+Theorem C20_dec_of_N_inj : forall a b, dec_of_N a = dec_of_N b -> a = b.
+Proof. exact dec_of_N_inj. Qed.
+Print Assumptions C20_dec_of_N_inj.
 
 (* NAMESPACE ids ('-'-joined components followed by --ns, landed 5a15038; was finding F-HTML-NS-ID-COLLISION): injective on dash-free
    names and a class of their own *)
